@@ -199,3 +199,86 @@ package schema
 //@   ensures iff(result != nil, old(inmap(n.children, node_name(ch))))
 //@   ensures implies(result == nil, inmap(n.children, node_name(ch)) && n.children[node_name(ch)] == ch)
 //@   ensures forallstr(k, implies(k != node_name(ch) || result != nil, inmap(n.children, k) == old(inmap(n.children, k)) && n.children[k] == old(n.children[k])))
+
+// ---------------------------------------------------------------------------
+// Mandatory checking (C18). The accessors of a schema node are pure views of its structure.
+//@ func (Node).Children
+//@   nopanic
+//@   ensures len(result) == sch_nchildren(self) && forall(i, 0, len(result), result[i] == sch_child(self, i) && result[i] != nil)
+//@ func (Node).Choices
+//@   nopanic
+//@   ensures len(result) == sch_nchoices(self) && forall(i, 0, len(result), result[i] == sch_choice(self, i) && result[i] != nil)
+//@ func (Node).Child
+//@   params name
+//@   nopanic
+//@   ensures result == sch_childbyname(self, name)
+//@ func (Node).Mandatory
+//@   nopanic
+//@   ensures result == sch_mandatory(self)
+//@ func (List).Limit
+//@   nopanic
+//@   ensures result.Min == sch_min(self)
+//@ func (LeafList).Limit
+//@   nopanic
+//@   ensures result.Min == sch_min(self)
+//@ func (Container).Presence
+//@   nopanic
+//@   ensures result == sch_presence(self)
+//@ func (Leaf).Mandatory
+//@   nopanic
+//@   ensures result == sch_mandatory(self)
+//@ func (List).Name
+//@   nopanic
+//@   ensures result == node_name(self)
+//@ func (Leaf).Name
+//@   nopanic
+//@   ensures result == node_name(self)
+//@ func (LeafList).Name
+//@   nopanic
+//@   ensures result == node_name(self)
+
+// A node is "in a choice" of p when some choice (or case) listed by p.Choices() has a member of that name.
+//@ define choiceHolds(p, n) = exists(j, 0, sch_nchoices(p), sch_childbyname(sch_choice(p, j), node_name(n)) != nil)
+//@ define caseChoiceHolds(p, n) = exists(j, 0, sch_nchoices(p), is(sch_choice(p, j), Choice) && sch_childbyname(sch_choice(p, j), node_name(n)) != nil)
+//@ define oneOf(nd, S) = exists(i, 0, sch_nchildren(nd), sel(S, node_name(sch_child(nd, i))))
+// what makes an absent child a violation: a mandatory leaf, a list or leaf-list with min-elements, or a
+// non-presence container with something mandatory below it
+//@ define kLeaf(c) = is(c, Leaf)
+//@ define kList(c) = !is(c, Leaf) && is(c, List)
+//@ define kLeafList(c) = !is(c, Leaf) && !is(c, List) && is(c, LeafList)
+//@ define kContainer(c) = !is(c, Leaf) && !is(c, List) && !is(c, LeafList) && is(c, Container)
+//@ define mandAbsent(c) = (kLeaf(c) && sch_mandatory(c)) || (kList(c) && sch_min(c) > 0) || (kLeafList(c) && sch_min(c) > 0) || (kContainer(c) && !sch_presence(c) && deep_mand(c))
+//@ axiom deepMandDef = forallof(n, Node, deep_mand(n) == (exists(i, 0, sch_nchildren(n), !choiceHolds(n, sch_child(n, i)) && mandAbsent(sch_child(n, i))) ||
+//@        exists(j, 0, sch_nchoices(n), is(sch_choice(n, j), Choice) && sch_mandatory(sch_choice(n, j)))))
+
+//@ func appendMandatoryError
+//@   modifies elems(errs)
+//@   ensures len(result) == len(errs) + 1 && (sameArray(result, errs) || isfresh(result))
+//@ func hasOneOf
+//@   nopanic
+//@   ensures result == exists(i, 0, len(nds), inmap(cfg, node_name(nds[i])))
+//@   requires forall(i, 0, len(nds), nds[i] != nil)
+//@   loop 0 invariant forall(i, 0, loopidx+1, !inmap(cfg, node_name(nds[i])))
+//@ func isAChoice
+//@   requires p != nil && n != nil
+//@   nopanic
+//@   ensures result == choiceHolds(p, n)
+//@   loop 0 invariant forall(j, 0, loopidx+1, sch_childbyname(sch_choice(p, j), node_name(n)) == nil)
+//@ func isACaseChoice
+//@   requires p != nil && n != nil
+//@   nopanic
+//@   ensures result == caseChoiceHolds(p, n)
+//@   loop 0 invariant forall(j, 0, loopidx+1, !(is(sch_choice(p, j), Choice) && sch_childbyname(sch_choice(p, j), node_name(n)) != nil))
+//@ define absentIn(sn, hi) = exists(i, 0, hi, !choiceHolds(sn, sch_child(sn, i)) && mandAbsent(sch_child(sn, i)))
+//@ define mandChoiceIn(sn, hi) = exists(j, 0, hi, is(sch_choice(sn, j), Choice) && sch_mandatory(sch_choice(sn, j)))
+//@ func hasMandatoryChildren
+//@   uses deepMandDef
+//@   requires sn != nil
+//@   modifies elems(errs)
+//@   modifies elems(path)
+//@   ensures len(result) >= len(errs) && iff(len(result) > len(errs), deep_mand(sn))
+//@   ensures sameArray(result, errs) || isfresh(result)
+//@   loop 0 invariant len(errs) >= old(len(errs)) && iff(len(errs) > old(len(errs)), absentIn(sn, loopidx+1))
+//@   loop 0 invariant sameArray(errs, old(errs)) || isfresh(errs)
+//@   loop 1 invariant len(errs) >= old(len(errs)) && iff(len(errs) > old(len(errs)), absentIn(sn, sch_nchildren(sn)) || mandChoiceIn(sn, loopidx+1))
+//@   loop 1 invariant sameArray(errs, old(errs)) || isfresh(errs)
